@@ -230,7 +230,7 @@ def witness_doc(d, rng, el_name, word, text=False):
 def run(ck: Check):
     ck.level = "translation_validation"
     obligations, discharged, axioms = standard_proof_step(
-        ck, extra_targets=["Model/DtdCorr.vo", "Proofs/Cm.vo", "Proofs/Dtd.vo"])
+        ck, extra_targets=["Model/DtdCorr.vo", "Proofs/Cm.vo", "Proofs/CmMatch.vo", "Proofs/Dtd.vo"])
     r = ck.rng
     NPROG = int(os.environ.get("C16_NPROG") or ck.n(40, 500))
     NDOC = int(os.environ.get("C16_NDOC") or ck.n(20, 60))
